@@ -68,7 +68,7 @@ def gen(chk):
 
 def reference_check(m, impl_out, seeds=(0, 1, 2)):
     """concrete byte-addressed little-endian interpreter of the same history vs the value of the read-back expressions"""
-    parts = impl_out.split(' | ')
+    parts = impl_out.split(' ## ')
     if len(parts) != 1 + len(m['loads']): return 'malformed answer / exception: %s' % impl_out[:200]
     reads = parts[1:]
     for r, (off, w) in zip(reads, m['loads']):
@@ -183,7 +183,7 @@ def finish_with_reference(chk, lines, meta, model, impl, mism, kf):
     seeds = (0, 1, 2)
     cases = []; index = []
     for k, m in enumerate(meta):
-        parts = impl[k].split(' | ')
+        parts = impl[k].split(' ## ')
         ok = len(parts) == 1 + len(m['loads']) and all(r.startswith('(') for r in parts[1:])
         if not ok: index.append((k, None)); continue
         kinds = m.get('kinds') or ['sym'] * len(m['stores'])
@@ -214,7 +214,7 @@ def finish_with_reference(chk, lines, meta, model, impl, mism, kf):
         ns = len(m['stores'])
         for (off, w), v in zip(m['stores'], vals[start + 1:start + 1 + ns]):
             for j in range(w // 8): mem[off + j] = (v >> (8 * j)) & 0xff
-        parts = impl[k].split(' | ')[1:]
+        parts = impl[k].split(' ## ')[1:]
         for r, g, (off, w) in zip(parts, vals[start + 1 + ns:start + 1 + ns + len(parts)], m['loads']):
             want = sum(mem[off + j] << (8 * j) for j in range(w // 8))
             if g != want:
